@@ -18,7 +18,8 @@ Record sentobs := {
   so_eos : option dnode;
   so_group : list N;
   so_cinfos : list (N * N * bool * bool * N);
-  so_counts : option (list N * list N)      (* cumulative counts per left id / right id *)
+  so_counts : option (list N * list N);     (* cumulative counts per left id / right id *)
+  so_alt : list (list dtoken)               (* the same sentence on a fresh worker / on other threads *)
 }.
 
 Record tokcase := {
